@@ -353,22 +353,23 @@ def run(tier, res, is_known):
 
 def replay(case):
     hist = [tuple(e) for e in case['history']]
+    # every prefix state is read exactly as the exploration read it (each prefix was a checked state)
     if case['seam'] == 'position':
         pos, ref = None, Ref()
         fails = []
         for i, ev in enumerate(hist):
             pos, ref, f = apply_position(pos, ref, ev, i)
             fails = f
-        if pos is not None and not fails:
-            fails = check_view(pos_view(pos), ref, case['history'], 'Position')
+            if pos is not None and not fails:
+                fails = check_view(pos_view(pos), ref, case['history'][:i + 1], 'Position')
         return fails
     port, refs = new_portfolio(), {}
-    fails = []
+    fails = check_portfolio(port, refs, [])
     for i, ev in enumerate(hist):
         port, refs, f = apply_portfolio(port, refs, ev, i)
         fails = f
-    if not fails:
-        fails = check_portfolio(port, refs, case['history'])
+        if not fails:
+            fails = check_portfolio(port, refs, case['history'][:i + 1])
     return fails
 
 
